@@ -8,6 +8,7 @@ CONSTANTS
   WithClear = FALSE
   FixJoin = TRUE
   FixGrow = TRUE
+  FixStart = TRUE
 INVARIANT ExactlyOnce
 INVARIANT MaxRunning
 INVARIANT MaxServing
